@@ -1,13 +1,13 @@
 """Source of truth for MANIFEST.json (tools/mkmanifest.py turns it into JSON)."""
 
 ENGINES = [
-    {"name": "PROG", "path": "mc/prog.py, mc/proggen.py", "serves_properties": ["C01", "C05", "C14"],
+    {"name": "PROG", "path": "mc/prog.py, mc/proggen.py", "serves_properties": ["C01", "C05", "C06", "C14"],
      "kind_free_text": "bounded-exhaustive enumerator of component programs (AST + printer) executed on the real library and compared with a reference interpreter"},
     {"name": "SEQ", "path": "mc/seq.py", "serves_properties": ["C18"],
      "kind_free_text": "explicit-state BFS over operation histories on the real objects, canonical-state merging, reference model per step, unmerged cross-check"},
 ]
 
-FIX_COMMITS = ["9971f7b (C01)", "a8b3a60 (C05)"]
+FIX_COMMITS = ["9971f7b (C01)", "a8b3a60 (C05)", "d2c67e0 (C06)", "af8a5f7 (C06)"]
 
 _PENDING = "check not built yet in this session (build order: DESIGN.md section 6); it will be decided by the same bounded-exhaustive technique"
 
@@ -30,6 +30,17 @@ CHECKS = {
                 "provider-chain reference model (output, KeyError class, injected field names, provided kwargs never template variables, empty provide registries after success); "
                 "plus all render histories <= 3 over 6 representative pages (each render equals its solo result).",
         "note": "provide tags between a component tag and its fill are outside the profile; bounded program size; single thread (threads are C07)",
+    },
+    "C06": {
+        "engine": "PROG x FAULT",
+        "design_ref": "DESIGN.md 2.1, 2.3, 3/C06",
+        "category": "fault_enumeration",
+        "technique": "exhaustive fault-position enumeration (every user-callback invocation of every bounded program raises) on the real renderer + exhaustive ok/fail histories",
+        "text": "For every program of the mixed profile with <= N nodes and every index i of a user-code callback invocation during its render (get_context_data, on_render_before/after, "
+                "Python slot functions, a harness tag at every nodelist position; inject of a missing key as natural fault), the run in which invocation i raises is executed on the real library; "
+                "the escaping exception must be the injected object, all six render registries empty, caller context and metadata stacks restored, sentinels dead, a follow-up render pristine, "
+                "repetition growth-free; plus all ok/fail histories <= 3 over 4 programs.",
+        "note": "fault sites are harness callbacks (built-in tag failures represented by the harness tag); liveness via weakref + gc.collect(); bounded program size",
     },
     "C14": {
         "engine": "PROG",
